@@ -28,6 +28,7 @@ rewritten before every build):
                        K.layoutInsert, K.layoutAppend, K.layoutRemove, K.layoutRemoveAll, K.layoutCompact,
                        K.modifyStartBitsOnShrink, K.modifyStartBitsOnGrow, K.layoutResize,
                        K.shiftLeft, K.shiftRight  (+ their _loopN / _afterN)
+    signal_layout.go   (*SignalLayout).generateFilters      K.generateFilters (+ _loop1, _loop2, _after1)
 
 The theorems below state that each generated definition equals the hand-written model function
 that the properties C10 / C11 / C13 / C14 (and the layout properties through the enum / mux
@@ -125,6 +126,31 @@ The equalities are with the model functions of Acme.Core.Layout that C01 is prov
 `shiftLeft`, `shiftRight`), for ALL lists and arguments (no `WF`), through `stateExc` / `stateRes`
 (new list on success, cause on error, `LErr.panic` for an index panic).
 
+The filters (C02).  `generateFilters` is translated with its nested loops:
+  * the signals are `sigs : List (Slot × Bool)` (slot and byte order: `Endianness()` ↦ the Go
+    constant value, `MessageByteOrderBigEndian` = 1, `…LittleEndian` = 0, so a renumbering in the
+    source breaks the proof); the result `sl.filters` is an OUTPUT only, a `List Acme.Bits.Filter`:
+    a literal `&SignalLayoutFilter{signal: sig, byteIdx: .., mask: uint8(m), length: .., leftOffset: ..}`
+    is the record with `id := sig.id, be := sig's byte order, mask := (uint8 m).toNat` (every Go
+    field must be given in the literal);
+  * the inner `for i := firstIdx; i <= lastIdx; i++` is `K.generateFilters_loop2 vs i : Nat → σ`,
+    structural recursion on the fuel `(lastIdx - firstIdx + 1).toNat`, returning the variables the
+    body assigns (`filters`, `remainingBits`); the body may assign neither `i` nor a variable of
+    the bound (checked);
+  * `goto appendFilter` (a forward jump to a label at the end of the loop body) is translated by
+    emitting the statements from the label on at the goto;
+  * the masks are Go `int`s: `1<<n`, `m <<= k`, `m >>= k` go through the 64-bit representation
+    (`GoSem.intShl` / `intShr`), `uint8(m)` is `BitVec.ofInt 8 m`.  The model computes in
+    unbounded `Nat` and truncates with `u8`; `K_generateFilters` holds for ALL sizes and start
+    positions, also those for which the 64-bit shift wraps (only the low 8 bits survive
+    `uint8(..)`, and they agree: lemmas `mask0`, `mask1`, `maskShl255`, `maskShr255`).  A negative
+    shift count (a Go panic, only for negative sizes / start positions) is `toNat` = 0 on both sides.
+  * The known defect D08 (a big-endian signal inside ONE byte gets the little-endian offset and
+    mask) is in the source, hence in the generated definition, and the model reproduces it on
+    purpose: the equality holds WITH that behaviour (see the third example of
+    Acme/Proofs/GenKernelsBits.lean); fixing it in the source breaks `K_generateFilters` until the
+    model follows.
+
 Where a hypothesis appears (`v < 2 ^ 64`) it says that the argument is a Go `int`: the model
 functions are defined on all of `Int`, the Go function only on 64-bit values (for `v ≥ 2^64` the
 conversion `uint64(val)` of the source has no counterpart in the model).
@@ -133,6 +159,7 @@ import Acme.Proofs.GenKernels
 import Acme.Proofs.GenKernelsLayout
 import Acme.Proofs.GenKernelsEnum
 import Acme.Proofs.GenKernelsState
+import Acme.Proofs.GenKernelsBits
 
 namespace Acme.Props.GenKernels
 
@@ -299,6 +326,14 @@ theorem K_shiftRight (cap : Int) (l : List Slot) (id : Nat) (amount : Int) :
   shiftRight_eq cap l id amount
 
 end State
+
+/-! ### the filters of the payload layout (signal_layout.go, property C02) -/
+
+/-- signal_layout.go `generateFilters` = `Acme.Bits.genFilters`, for all layouts (any sizes,
+    start positions and byte orders; no well-formedness assumption). -/
+theorem K_generateFilters (l : List (Acme.Layout.Slot × Bool)) :
+    K.generateFilters l = Acme.Bits.genFilters l :=
+  Acme.GenK.generateFilters_eq l
 
 /-! ### enum and multiplexer sizes -/
 
